@@ -24,4 +24,6 @@ def instances(tier):
 
 
 def scenario(c, inst):
+    if inst["kind"] == "e2e":
+        return EC.scenario_e2e(c, inst, {"C09"})
     return EC.scenario(c, inst, {"C09"})
